@@ -574,6 +574,73 @@ def run(ctx, B, collect=False):
     notes["idl_common_block"] = dict(names=len(comm), assigned_but_not_in_common=sorted(n for n in pub if n.upper() not in comm)[:20],
                                      in_common_but_never_assigned=sorted(c for c in comm if c not in env)[:20])
 
+    # ================================================================= struct layouts that cross the language boundary by reference
+    # Fortran TYPE, BIND(C) blocks and the Pascal records handed to / received from C must list the members of the C struct in the same order with the same
+    # kind of type (int / double / pointer): a transposed pair of doubles or an INTEGER(C_LONG) count changes every field behind it
+    hdrs = "".join(open(h, errors="replace").read() for h in sorted(glob.glob(P("include/*.h"))))
+    hdrs = re.sub(r"/\*.*?\*/", " ", hdrs, flags=re.S)
+    cstruct = {}
+    for m_ in re.finditer(r"(?:typedef\s+)?struct\s*(\w*)\s*\{([^{}]*)\}\s*(\w*)\s*;", hdrs):
+        mem = []
+        for decl in m_.group(2).split(";"):
+            md = re.match(r"\s*(?:const\s+)?(?:struct\s+)?(\w+)\s*(\**)\s*(\w+(?:\s*,\s*\w+)*)\s*$", decl)
+            if not md:
+                if decl.strip():
+                    mem.append(("?", decl.strip()))
+                continue
+            for nm_ in md.group(3).split(","):
+                mem.append(("ptr" if md.group(2) else {"int": "int", "double": "double", "xrl_error_code": "int"}.get(md.group(1), "?" + md.group(1)), nm_.strip()))
+        for n_ in (m_.group(1), m_.group(3)):
+            if n_:
+                cstruct[n_.lstrip("_")] = mem
+    notes["c_structs"] = {k: len(v) for k, v in cstruct.items()}
+    nlay = 0
+
+    def layout(file, bname, members, line):
+        nonlocal nlay
+        cn = bname
+        for suf in ("_C", "C"):
+            if cn not in cstruct and cn.endswith(suf) and cn[:-len(suf)] in cstruct:
+                cn = cn[:-len(suf)]
+        cn = {"TCrystalAtom": "Crystal_Atom", "TCrystalStruct": "Crystal_Struct", "TCompoundData": "compoundData", "TCompoundDataNIST": "compoundDataNIST",
+              "TRadioNuclideData": "radioNuclideData"}.get(cn, cn)
+        if cn not in cstruct:
+            return
+        nlay += 1
+        want = cstruct[cn]
+        ok_ = len(members) == len(want) and all(bt == ct and bn.lower() == cn_.lower() for (bt, bn), (ct, cn_) in zip(members, want))
+        R.cmp(file, "struct-layout", cn, ok_, "%s: %s" % (bname, ", ".join("%s %s" % x for x in members)), ", ".join("%s %s" % x for x in want), "%s:%d" % (file, line), "struct layouts")
+
+    for rel in (ff,):
+        ll = L.fortran_logical_lines(open(P(rel), errors="replace").read())[0]
+        cur = None
+        for ln, l in ll:
+            mt = re.match(r"(?i)\s*TYPE\s*,\s*BIND\s*\(\s*C\s*\)\s*::\s*(\w+)", l)
+            if mt:
+                cur = (mt.group(1), [], ln); continue
+            if cur and re.match(r"(?i)\s*END\s*TYPE", l):
+                layout(rel, cur[0], cur[1], cur[2]); cur = None; continue
+            if cur:
+                md = re.match(r"(?i)\s*(INTEGER|REAL|TYPE)\s*\(\s*(\w+)\s*\)[^:]*::\s*(.+)$", l)
+                if not md:
+                    cur[1].append(("?", l.strip())); continue
+                k_ = {("INTEGER", "C_INT"): "int", ("REAL", "C_DOUBLE"): "double", ("TYPE", "C_PTR"): "ptr"}.get((md.group(1).upper(), md.group(2).upper()), "?%s(%s)" % (md.group(1), md.group(2)))
+                for nm_ in md.group(3).split(","):
+                    cur[1].append((k_, nm_.strip()))
+    ptxt = L.pascal_strip_comments(open(P(pm), errors="replace").read())[0]
+    for m_ in re.finditer(r"(?is)\b(\w+)\s*=\s*record\b(.*?)\bend\s*;", ptxt):
+        mem = []
+        for decl in m_.group(2).split(";"):
+            md = re.match(r"(?is)\s*(\w+(?:\s*,\s*\w+)*)\s*:\s*(.+?)\s*$", decl)
+            if not md:
+                continue
+            t_ = md.group(2).strip().lower()
+            k_ = "int" if t_ in ("longint", "integer", "cint", "xrl_error_code") else "double" if t_ == "double" else "ptr" if (t_.startswith("array of") or t_.startswith("p") or t_.startswith("^") or t_ == "pointer") else "?" + t_
+            for nm_ in md.group(1).split(","):
+                mem.append((k_, nm_.strip()))
+        layout(pm, m_.group(1), mem, ptxt.count("\n", 0, m_.start()) + 1)
+    notes["functions_compared"]["struct layouts (Fortran BIND(C) types, Pascal records)"] = nlay
+
     # ================================================================= C++
     cp = "cplusplus/xraylib++.h"
     C = L.cplusplus(P(cp), cp)
